@@ -99,10 +99,9 @@ impl<T, E> Observer<T, E> for ObservableFutureObserver<T, E> {
       .last_value
       .take()
       .unwrap_or(Err(ObservableError::Empty));
-    self
-      .sender
-      .unbounded_send(last_value)
-      .expect("failed to send observable last emitted value");
+    // the future may have been dropped meanwhile (receiver gone): nobody is
+    // waiting for the outcome then, and a terminal must not panic
+    let _ = self.sender.unbounded_send(last_value);
     self.sender.close_channel();
   }
 
